@@ -312,6 +312,8 @@ class ExprMixin:
         if isinstance(op, ast.Mult):
             # 'c' * n (or n * 'c') for a one-character literal c: the text of max(n, 0) characters c (native encoding)
             for x, y in ((a, b), (b, a)):
+                if isinstance(x, str) and len(x) == 0 and (isinstance(y, int) or (isinstance(y, SV) and y.ty == INT)):
+                    return ""
                 if isinstance(x, str) and len(x) == 1 and (isinstance(y, int) or (isinstance(y, SV) and y.ty == INT)) \
                         and not isinstance(y, bool):
                     if isinstance(y, int):
